@@ -226,6 +226,26 @@ theorem no_ecs_in_badvers_reply (p : Option Policy) (client : Option Addr) (opts
   intro o ho
   exact (mem_stripECS ho).2
 
+/-- nor in an rcode rejection (`Chain.CancelWithRcode`), whichever side of edns
+the rejecting handler sits on and whatever the client's OPT held — a lone
+subnet option included. -/
+theorem no_ecs_in_rejection (copts : Option (List Opt)) (noedns keepalive : Bool) (fwd server : List Opt) :
+    (∀ l, rejectReplyAhead copts = some l → ∀ o ∈ l, o.isEcs = false) ∧
+    (∀ l, rejectReplyBehind noedns fwd server keepalive = some l → ∀ o ∈ l, o.isEcs = false) := by
+  constructor
+  · intro l hl o ho
+    cases copts with
+    | none => simp [rejectReplyAhead] at hl
+    | some c =>
+      simp only [rejectReplyAhead, Option.map_some, Option.some.injEq] at hl
+      subst hl
+      have := (List.mem_filter.mp ho).2
+      cases o with
+      | ecs s => simp [Opt.code] at this
+      | other c d => rfl
+  · intro l hl
+    exact no_ecs_to_client noedns keepalive _ fwd server l hl
+
 /-- a client that did not speak EDNS gets no OPT at all. -/
 theorem no_opt_without_edns (keepalive : Bool) (resp : Option (List Opt)) (own server : List Opt) :
     replyOptions true resp own server keepalive = none := rfl
@@ -850,6 +870,8 @@ example : setEdns0 (some demoPol) (some ⟨.v4, 0x0a010203⟩)
 example : ednsMarks (some [.ecs ⟨0, 0, 0, some [0, 0, 0, 0, 0, 0, 0, 0, 0, 0, 255, 255, 0, 0, 0, 0]⟩]) = true ∧
     setEdns0 (some { demoPol with nets := [] }) (some ⟨.v4, 0x0a010203⟩)
       [.ecs ⟨0, 0, 0, some [0, 0, 0, 0, 0, 0, 0, 0, 0, 0, 255, 255, 0, 0, 0, 0]⟩] = [] := by decide
+example : rejectReplyAhead (some [.ecs ⟨1, 32, 0, some [203, 0, 113, 77]⟩]) = some [] ∧
+    rejectReplyAhead (some [.other 10 "0102030405060708", .ecs ⟨1, 32, 0, some [203, 0, 113, 77]⟩]) = some [.other 10 "0102030405060708"] := by decide
 example : badversReplyOptions (some demoPol) (some ⟨.v4, 0x0a010203⟩) [.ecs ⟨1, 27, 0, some [10, 1, 0xff, 0xff]⟩] = [] := by decide
 -- scope /24 from the authority, /19 forwarded, floor /19: stored under /19
 example : clampScope (some demoPol) ⟨.v4, 0x0a01e200, 24⟩ (some ⟨.v4, 0x0a01e000, 19⟩) = ⟨.v4, 0x0a01e000, 19⟩ := by decide
